@@ -543,3 +543,117 @@ Theorem tables_agree_entry_point' es :
   NoDup (map ekey es) -> (forall u v t, In (u, v, t) es -> 0 <= u /\ 0 <= v /\ u <> v) ->
   flag_complex_collapse_edges true es = flag_complex_collapse_edges false es.
 Proof. intros H1 H2. apply tables_agree_entry_point. split; assumption. Qed.
+
+(* ------------------------------------------------------------------ what common_neighbors and is_dominated_by compute *)
+(* w is a common neighbour of u and v (other than u, v) and f is the time from which both edges uw, vw are present *)
+Definition cn_member (u v : Z) (nu nv : ngb) (w : Z) (f : fv) : Prop :=
+  exists fu fw, fm_find nu w = Some fu /\ fm_find nv w = Some fw /\ w <> u /\ w <> v /\ f = fv_max fu fw.
+
+Lemma fm_find_some_in l k f : fm_find l k = Some f -> In k (map fst l).
+Proof.
+  induction l as [|[k0 f0] l IH]; cbn [fm_find map fst]; [discriminate|].
+  destruct (Z.eqb_spec k k0) as [->|]; [intros _; left; reflexivity|intros H; right; apply IH; exact H].
+Qed.
+
+Lemma cnm_skip_l u v w0 fu nu' nv w f : Forall (Z.lt w0) (map fst nu') -> fm_find nv w0 = None ->
+  (cn_member u v ((w0, fu) :: nu') nv w f <-> cn_member u v nu' nv w f).
+Proof.
+  intros Hgt Hn. unfold cn_member. cbn [fm_find]. split; intros (a & b & H1 & H2 & R).
+  - destruct (Z.eqb_spec w w0) as [->|]; [rewrite Hn in H2; discriminate|exists a, b; auto].
+  - exists a, b. split; [|auto]. destruct (Z.eqb_spec w w0) as [->|]; [|exact H1].
+    apply fm_find_some_in in H1. rewrite Forall_forall in Hgt. specialize (Hgt _ H1). lia.
+Qed.
+Lemma cnm_skip_r u v w0 fw nu nv' w f : Forall (Z.lt w0) (map fst nv') -> fm_find nu w0 = None ->
+  (cn_member u v nu ((w0, fw) :: nv') w f <-> cn_member u v nu nv' w f).
+Proof.
+  intros Hgt Hn. unfold cn_member. cbn [fm_find]. split; intros (a & b & H1 & H2 & R).
+  - destruct (Z.eqb_spec w w0) as [->|]; [rewrite Hn in H1; discriminate|exists a, b; auto].
+  - exists a, b. split; [exact H1|]. split; [|auto]. destruct (Z.eqb_spec w w0) as [->|]; [|exact H2].
+    apply fm_find_some_in in H2. rewrite Forall_forall in Hgt. specialize (Hgt _ H2). lia.
+Qed.
+Lemma cnm_both u v w0 fu fw nu' nv' w f : Forall (Z.lt w0) (map fst nu') -> Forall (Z.lt w0) (map fst nv') ->
+  (cn_member u v ((w0, fu) :: nu') ((w0, fw) :: nv') w f <->
+   (w = w0 /\ w0 <> u /\ w0 <> v /\ f = fv_max fu fw) \/ cn_member u v nu' nv' w f).
+Proof.
+  intros G1 G2. unfold cn_member. cbn [fm_find]. split.
+  - intros (a & b & H1 & H2 & R). destruct (Z.eqb_spec w w0) as [->|].
+    + left. inversion H1; inversion H2; subst. tauto.
+    + right. exists a, b. auto.
+  - intros [(-> & A & B & D)|(a & b & H1 & H2 & R)].
+    + rewrite Z.eqb_refl. exists fu, fw. auto.
+    + exists a, b. destruct (Z.eqb_spec w w0) as [->|]; [|auto].
+      apply fm_find_some_in in H1. rewrite Forall_forall in G1. specialize (G1 _ H1). lia.
+Qed.
+
+(* e_ngb = the common neighbours present at time f_event; e_ngb_later = the others, with the time they appear *)
+Theorem common_neighbors_spec u v fe : forall nu nv,
+  StronglySorted Z.lt (map fst nu) -> StronglySorted Z.lt (map fst nv) ->
+  forall w,
+    (In w (fst (common_neighbors u v fe nu nv)) <-> exists f, cn_member u v nu nv w f /\ fv_gt f fe = false) /\
+    (forall f, In (f, w) (snd (common_neighbors u v fe nu nv)) <-> cn_member u v nu nv w f /\ fv_gt f fe = true).
+Proof.
+  assert (Hnil_l : forall nv w f, ~ cn_member u v [] nv w f) by (intros nv w f (a & b & H & _); discriminate).
+  assert (Hnil_r : forall nu w f, ~ cn_member u v nu [] w f) by (intros nu w f (a & b & _ & H & _); discriminate).
+  induction nu as [|[w0 fu] nu IHnu]; intros nv Hsu Hsv w.
+  { rewrite cn_eq. cbn [fst snd]. split; [|intros f]; (split; [intros []|]).
+    - intros (f & H & _). exact (Hnil_l _ _ _ H).
+    - intros [H _]. exact (Hnil_l _ _ _ H). }
+  induction nv as [|[w0' fw] nv IHnv].
+  { rewrite cn_eq. cbn [fst snd]. split; [|intros f]; (split; [intros []|]).
+    - intros (f & H & _). exact (Hnil_r _ _ _ H).
+    - intros [H _]. exact (Hnil_r _ _ _ H). }
+  rewrite cn_eq. cbn [map fst] in Hsu, Hsv.
+  pose proof Hsu as Hsu0. pose proof Hsv as Hsv0.
+  apply StronglySorted_inv in Hsu. destruct Hsu as [Hsu Gu].
+  apply StronglySorted_inv in Hsv. destruct Hsv as [Hsv Gv].
+  destruct (w0 <? w0') eqn:E1.
+  { assert (Hn : fm_find ((w0', fw) :: nv) w0 = None).
+    { apply fm_find_above with w0; [|lia]. cbn [map fst]. constructor; [lia|]. eapply Forall_impl; [|exact Gv]. cbn. intros; lia. }
+    destruct (IHnu ((w0', fw) :: nv) Hsu Hsv0 w) as [A B]. split.
+    - rewrite A. split; intros (f & H & R); exists f; (split; [|exact R]); apply (cnm_skip_l u v w0 fu nu _ w f Gu Hn); exact H.
+    - intros f. rewrite (B f). rewrite (cnm_skip_l u v w0 fu nu _ w f Gu Hn). tauto. }
+  destruct (w0' <? w0) eqn:E2.
+  { assert (Hn : fm_find ((w0, fu) :: nu) w0' = None).
+    { apply fm_find_above with w0'; [|lia]. cbn [map fst]. constructor; [lia|]. eapply Forall_impl; [|exact Gu]. cbn. intros; lia. }
+    destruct (IHnv Hsv) as [A B]. split.
+    - rewrite A. split; intros (f & H & R); exists f; (split; [|exact R]); apply (cnm_skip_r u v w0' fw _ nv w f Gv Hn); exact H.
+    - intros f. rewrite (B f). rewrite (cnm_skip_r u v w0' fw _ nv w f Gv Hn). tauto. }
+  assert (w0' = w0) by lia. subst w0'. clear IHnv.
+  destruct (IHnu nv Hsu Hsv w) as [A B]. destruct (common_neighbors u v fe nu nv) as [a b]. cbn [fst snd] in A, B.
+  assert (HB : forall f, cn_member u v ((w0, fu) :: nu) ((w0, fw) :: nv) w f <->
+                         (w = w0 /\ w0 <> u /\ w0 <> v /\ f = fv_max fu fw) \/ cn_member u v nu nv w f)
+    by (intros f; apply cnm_both; assumption).
+  destruct (Z.eqb_spec w0 u) as [Eu|Nu]; [|destruct (Z.eqb_spec w0 v) as [Ev|Nv]]; cbn [negb andb].
+  - cbn [fst snd]. split.
+    + rewrite A. split; intros (f & H & R); exists f; (split; [|exact R]); [apply HB; right; exact H|].
+      apply HB in H. destruct H as [(_ & H & _)|H]; [congruence|exact H].
+    + intros f. rewrite (B f), (HB f). split; [tauto|]. intros [[(_ & H & _)|H] R]; [congruence|tauto].
+  - cbn [fst snd]. split.
+    + rewrite A. split; intros (f & H & R); exists f; (split; [|exact R]); [apply HB; right; exact H|].
+      apply HB in H. destruct H as [(_ & _ & H & _)|H]; [congruence|exact H].
+    + intros f. rewrite (B f), (HB f). split; [tauto|]. intros [[(_ & _ & H & _)|H] R]; [congruence|tauto].
+  - cbv zeta. destruct (fv_gt (fv_max fu fw) fe) eqn:G; cbn [fst snd].
+    + split.
+      * rewrite A. split; intros (f & H & R); exists f; (split; [|exact R]); [apply HB; right; exact H|].
+        apply HB in H. destruct H as [(_ & _ & _ & ->)|H]; [congruence|exact H].
+      * intros f. rewrite (HB f). cbn [In]. rewrite (B f). split.
+        -- intros [H|H]; [inversion H; subst; split; [left; auto|exact G]|tauto].
+        -- intros [[(-> & _ & _ & ->)|H] R]; [left; reflexivity|right; tauto].
+    + split.
+      * cbn [In]. rewrite A. split.
+        -- intros [<-|(f & H & R)]; [exists (fv_max fu fw); split; [apply HB; left; auto|exact G]|].
+           exists f. split; [apply HB; right; exact H|exact R].
+        -- intros (f & H & R). apply HB in H. destruct H as [(-> & _)|H]; [left; reflexivity|right; exists f; tauto].
+      * intros f. rewrite (B f), (HB f). split; [tauto|].
+        intros [[(_ & _ & _ & ->)|H] R]; [congruence|tauto].
+Qed.
+
+(* is_dominated_by (default body) on sorted data = "every vertex of e_ngb is in the closed neighbourhood of c at time f" *)
+Theorem is_dominated_by_spec s en c f :
+  f <> PInf -> StronglySorted Z.lt en -> StronglySorted Z.lt (map fst (nb_get s c)) ->
+  (is_dominated_by false s en c f = true <-> forall w, In w en -> fv_le (lookup_inf (nb_get s c) w) f = true).
+Proof.
+  intros Hf Hen Hnc. unfold is_dominated_by. rewrite dom_sparse_spec by assumption. rewrite forallb_forall.
+  split; intros H w Hw; specialize (H w Hw); unfold dom_ok, lookup_inf, fv_le, fv_gt in *;
+    destruct (fm_find (nb_get s c) w); try exact H; destruct f; cbn in *; congruence.
+Qed.
